@@ -1210,6 +1210,33 @@ func main() {
 			}
 		}
 		ctx.CountN("layers", nLayers)
+		// input classes the generator must produce (functions of the input only, never of the implementation's answers)
+		dsum, withURLs := 0, 0
+		for _, ch := range c.Children {
+			if !images.IsLayerType(ch.MT) {
+				continue
+			}
+			dsum += len(ch.Digest) + 1
+			usum := 0
+			for _, u := range ch.URLs {
+				usum += len(u) + 1
+			}
+			if len(ch.URLs) > 0 {
+				withURLs++
+			}
+			if len(ch.URLs) > 1 && len(kURLs)+usum > 4096 {
+				ctx.Count("input.urls-over-limit")
+			}
+		}
+		if isManifest(c.MT) && len(kLayers)+dsum > 4096 {
+			ctx.Count("input.layers-over-limit")
+		}
+		if withURLs >= 2 {
+			ctx.Count("input.several-layers-with-urls")
+		}
+		if _, ok := parseRefOK(c.Ref); !ok {
+			ctx.Count("input.bad-ref")
+		}
 		if !isManifest(c.MT) {
 			ctx.Count("input.not-manifest")
 		}
